@@ -63,3 +63,18 @@ package issuelink
 //@   ensures typeis(err, *withIssueLink) ==> result1 && result0 == err.(*withIssueLink).IssueLink
 //@   ensures typeis(err, *unimplementedError) ==> result1 && result0 == err.(*unimplementedError).IssueLink
 //@   ensures (!typeis(err, *withIssueLink) && !typeis(err, *unimplementedError)) ==> !result1
+
+// ---- GetAllIssueLinks: links of all layers, outermost first (C19) ----
+//@ spec func hasLink(e error) bool = typeis(e, *withIssueLink) || typeis(e, *unimplementedError)
+//@ spec func linkOf(e error) IssueLink = typeis(e, *withIssueLink) ? e.(*withIssueLink).IssueLink : e.(*unimplementedError).IssueLink
+//@ spec func linkCount(e error, k int) int
+//@ unfold linkCount(e, k) = k <= 0 ? 0 : linkCount(e, k - 1) + (hasLink(chainAt(e, k - 1)) ? 1 : 0)
+
+//@ func GetAllIssueLinks
+//@   props C19 C11 C07
+//@   ensures len(result) == linkCount(err, chainLen(err))
+//@   ensures forall j int :: 0 <= j && j < chainLen(err) && hasLink(chainAt(err, j)) ==> result[linkCount(err, j)] == linkOf(chainAt(err, j))
+//@   loop 1: ghost k int = 0 step k + 1
+//@           invariant k >= 0 && err == chainAt(old(err), k) && (forall j int :: 0 <= j && j < k ==> chainAt(old(err), j) != nil)
+//@           invariant len(issues) == linkCount(old(err), k)
+//@           invariant forall j int :: 0 <= j && j < k && hasLink(chainAt(old(err), j)) ==> linkCount(old(err), j) < len(issues) && issues[linkCount(old(err), j)] == linkOf(chainAt(old(err), j))
